@@ -5,6 +5,7 @@
 
 #include <etl/_algorithm/move.hpp>
 #include <etl/_concepts/emulation.hpp>
+#include <etl/_algorithm/move_backward.hpp>
 #include <etl/_iterator/distance.hpp>
 #include <etl/_iterator/iterator_traits.hpp>
 #include <etl/_iterator/next.hpp>
@@ -36,22 +37,9 @@ constexpr auto shift_right(BidiIt first, BidiIt last, typename etl::iterator_tra
         return last;
     }
 
-    auto dest = etl::prev(last);
-    auto src  = etl::prev(dest, n);
-    for (; src != first; --dest, (void)--src) {
-        *dest = etl::move(*src);
-    }
-
-    // Elements outside the new range should be left in a valid but unspecified state.
-    // If the value type has a default constructor we do a little cleanup.
-    using value_type = typename etl::iterator_traits<BidiIt>::value_type;
-    if constexpr (is_default_constructible_v<value_type>) {
-        for (; dest != first; --dest) {
-            *dest = value_type{};
-        }
-    }
-
-    return etl::next(first, n);
+    auto const result = etl::next(first, n);
+    etl::move_backward(first, etl::prev(last, n), last);
+    return result;
 }
 
 } // namespace etl
